@@ -254,7 +254,8 @@ def append_cases(draw):
         via = draw(st.sampled_from(["io", "orch", "wob"] if mux else VIAS))
         ops.append({"via": via, "stream": stream,
                     "rec": draw(records(stream=os.path.basename(stream), big=(i == big_at)))})
-    return {"ci": ci, "mux": mux, "ops": ops}
+    return {"ci": ci, "mux": mux, "capture": draw(st.sampled_from(["use_mux", "begin_end"])) if mux else None,
+            "ops": ops}
 
 
 def check_append(case, rec=None):
@@ -265,10 +266,19 @@ def check_append(case, rec=None):
     snap = copy.deepcopy([o["rec"] for o in ops])
     with sandbox(case["ci"]) as logs:
         if case["mux"]:
-            mux = logmux.LogMux()
-            with logmux.use_mux(mux):
-                for o in ops:
-                    W[o["via"]](o["stream"], o["rec"])
+            if case.get("capture") == "begin_end":  # the driver's own capture helpers
+                from clematis.engine.orchestrator import logging as ologging
+                mux, token = ologging._begin_log_capture()
+                try:
+                    for o in ops:
+                        W[o["via"]](o["stream"], o["rec"])
+                finally:
+                    ologging._end_log_capture(token)
+            else:
+                mux = logmux.LogMux()
+                with logmux.use_mux(mux):
+                    for o in ops:
+                        W[o["via"]](o["stream"], o["rec"])
             early = {k: v for k, v in read_tree(logs).items()}
             if early:
                 raise Violation(f"records reached the disk while a LogMux was capturing: {sorted(early)}", case,
@@ -318,7 +328,7 @@ def check_append(case, rec=None):
         cls = set()
         for o in ops:
             cls |= _classes(o["rec"])
-        labels = sorted(cls) + [f"ci={case['ci']}", "mux" if case["mux"] else "direct"] + \
+        labels = sorted(cls) + [f"ci={case['ci']}", ("mux:" + str(case.get("capture"))) if case["mux"] else "direct"] + \
             sorted({"via=" + o["via"] for o in ops}) + \
             (["identity-stream"] if any(os.path.basename(o["stream"]) in IDENT for o in ops) else [])
         nt = bool(cls)
